@@ -120,6 +120,164 @@ def oracle_sweep(line):
     return None
 
 
+
+# ---- the allocating helpers: uc_sub (any int offsets), uc_cat, uc_dup, uc_trim, uc_lastline, uc_iscomb -------------------------
+# the characters the editor treats as combining (uc.c uc_acomb): the standard Arabic diacritics, superscript alef, shadda ligatures
+def spec_comb(c):
+    return 0x064b <= c <= 0x0655 or c == 0x0670 or 0xfc5e <= c <= 0xfc63
+
+
+def decode_valid(b):
+    """the code points of b when b is valid UTF-8 without NUL, else None"""
+    try:
+        cs = [ord(ch) for ch in b.decode('utf-8')]
+    except UnicodeDecodeError:
+        return None
+    return cs
+
+
+def unhx(h):
+    return b'' if h == '-' else bytes.fromhex(h)
+
+
+def whole_prefix(b):
+    """the longest prefix of b that is valid UTF-8 when b is a byte prefix of valid text, else None"""
+    for cut in range(0, 4):
+        if cut > len(b):
+            break
+        p = b[:len(b) - cut]
+        if decode_valid(p) is not None:
+            # what was dropped must be a proper prefix of ONE encoded character
+            rest = b[len(p):]
+            if not rest:
+                return p
+            lead = rest[0]
+            need = 2 if 0xc2 <= lead <= 0xdf else 3 if 0xe0 <= lead <= 0xef else 4 if 0xf0 <= lead <= 0xf4 else 0
+            if need > len(rest) and all(0x80 <= x <= 0xbf for x in rest[1:]):
+                return p
+            return None
+    return None
+
+
+def oracle_mem(req, line):
+    """the property evaluated on the implementation's answer to a sub / cat / mem request (None = fine or not judged)"""
+    w = req.split(' ')
+    if w[0] == 'cat':
+        a, b = unhx(w[1]), unhx(w[2])
+        if decode_valid(a) is None or decode_valid(b) is None:
+            return None
+        if line != vlib.hx(a + b):
+            return 'uc_cat of two valid strings is %s, expected their concatenation %s' % (line, vlib.hx(a + b))
+        return None
+    if w[0] == 'sub':
+        s = unhx(w[1])
+        cs = decode_valid(s)
+        if cs is None:
+            return None
+        n = len(cs)
+        b, e = int(w[2]), int(w[3])
+        if (b > n) != (e > n):
+            return None          # undefined in the C text (one offset beyond the line): the probe does not call it
+        kb = n if b < 0 else b
+        ke = n if e < 0 else e
+        want = b''.join(enc(c) for c in cs[kb:ke]) if kb <= n and ke <= n else b''
+        if line != vlib.hx(want):
+            return 'uc_sub(s, %d, %d) of a valid line of %d characters is %s, expected the characters [%d,%d) = %s' % (b, e, n, line, kb, ke, vlib.hx(want))
+        try:
+            unhx(line).decode('utf-8')
+        except (UnicodeDecodeError, ValueError):
+            return 'uc_sub(s, %d, %d) of a valid line is not valid UTF-8: %s' % (b, e, line)
+        return None
+    if w[0] == 'mem':
+        s = unhx(w[1])
+        d = parse_str_line(line)
+        cs = decode_valid(s)
+        nl = s.rfind(b'\n') + 1
+        if d.get('dup') != vlib.hx(s):
+            return 'uc_dup copy %s differs from the string' % d.get('dup')
+        if d.get('last') != str(nl):
+            return 'uc_lastline at +%s, the text behind the last newline starts at +%d' % (d.get('last'), nl)
+        if d.get('keep') != '1':
+            return 'uc_trim changed bytes other than the terminator it writes'
+        tr = unhx(d.get('trim', '-'))
+        if not s.startswith(tr):
+            return 'uc_trim left %s, not a prefix of the string' % d.get('trim')
+        if cs is not None:
+            if tr != s:
+                return 'uc_trim cut valid UTF-8 text to %s' % d.get('trim')
+            comb = d.get('comb', '')
+            pos = 0
+            for c in cs:
+                want = '1' if (c > 0x7f and spec_comb(c)) else '0'
+                if comb[pos:pos + 1] != want:
+                    return 'uc_iscomb of U+%04X at +%d is %s, expected %s' % (c, pos, comb[pos:pos + 1], want)
+                pos += len(enc(c))
+        else:
+            wp = whole_prefix(s)
+            if wp is not None and tr != wp:
+                return 'uc_trim of valid text cut inside a character left %s, expected the whole characters %s' % (d.get('trim'), vlib.hx(wp))
+        return None
+    return None
+
+
+def mem_requests(ctx):
+    """sub / cat / mem requests aimed at the boundaries: offsets at, around and beyond the number of characters (both beyond
+    only: one beyond is undefined in the C text), negative offsets, beg > end, multi-byte characters at the cut, the joint of
+    uc_cat inside and between multi-byte characters, valid text cut at every byte offset (truncated trailing sequences) and
+    malformed bytes for uc_trim, newlines first / last / doubled / absent for uc_lastline, the combining ranges and their
+    neighbours for uc_iscomb."""
+    r = ctx.rng.fork('ucmem')
+    out = []
+    L = 3 if ctx.quick else 4
+    small = []
+    for n in range(0, L + 1):
+        for cs in itertools.product(SMALL, repeat=n):
+            small.append(list(cs))
+    for cs in small:
+        h = vlib.hx(b''.join(enc(c) for c in cs))
+        n = len(cs)
+        out.append('mem ' + h)
+        if n <= 2 or r.below(4) == 0:
+            for b in range(-2, n + 1):
+                for e in range(-2, n + 1):
+                    out.append('sub %s %d %d' % (h, b, e))
+        for b, e in ((n + 1, n + 1), (n + 1, n + 3), (n + 2, n + 1), (2147483647, n + 1), (n, n), (n, -1), (-1, n), (0, n), (n, 0)):
+            out.append('sub %s %d %d' % (h, b, e))
+    # combining ranges and their neighbours, newline placements
+    for c in (0x64a, 0x64b, 0x650, 0x655, 0x656, 0x66f, 0x670, 0x671, 0xfc5d, 0xfc5e, 0xfc63, 0xfc64, 0x301, 0x20, 0x7e, 0x7f, 0x80, 0xa0):
+        out.append('mem ' + vlib.hx(enc(0x62a) + enc(c) + enc(0x61)))
+    for t in ('', '\n', 'a\n', '\na', 'a\n\n', 'é\n€', 'a\nb\nc', '\n\n', 'ab', '€\n', '\n€\n😀'):
+        out.append('mem ' + vlib.hx(t.encode('utf-8')))
+    # random valid strings: offsets around the ends, cuts at every byte offset, cat at every split
+    for i in range(150 if ctx.quick else 3000):
+        n = r.choice([1, 2, 3, 5, 8, 20, 60])
+        cs = [r.choice(ALPHA + [0x0a, 0x64b, 0x670, 0xfc5e]) if r.below(3) else r.choice(SMALL) for _ in range(n)]
+        b = b''.join(enc(c) for c in cs)
+        h = vlib.hx(b)
+        out.append('mem ' + h)
+        offs = [-5, -1, 0, 1, n // 2, n - 1, n]
+        for j in range(6):
+            out.append('sub %s %d %d' % (h, r.choice(offs), r.choice(offs)))
+        out.append('sub %s %d %d' % (h, n + 1 + r.below(3), n + 1 + r.below(9)))
+        if n <= 8:
+            for k in range(len(b) + 1):
+                out.append('mem ' + vlib.hx(b[:k]))
+                out.append('cat %s %s' % (vlib.hx(b[:k]), vlib.hx(b[k:])))
+        else:
+            k = r.below(len(b) + 1)
+            out.append('mem ' + vlib.hx(b[:k]))
+            k2 = sum(len(enc(c)) for c in cs[:r.below(n + 1)])
+            out.append('cat %s %s' % (vlib.hx(b[:k2]), vlib.hx(b[k2:])))
+            out.append('cat %s %s' % (vlib.hx(b[k2:]), vlib.hx(b[:k2])))
+    # malformed bytes (model vs code; the prefix / frame clauses of uc_trim are still judged)
+    for i in range(150 if ctx.quick else 3000):
+        n = r.range(1, 10)
+        b = bytes(r.choice([r.range(1, 255), r.range(0x80, 0xbf), r.range(0xc0, 0xf7), 0x61, 0x0a]) for _ in range(n))
+        out.append('mem ' + vlib.hx(b))
+        out.append('sub %s %d %d' % (vlib.hx(b), r.range(-1, 3), r.range(-1, 6)))
+    return out
+
+
 MB = ['a', 'b', ' ', 'é', 'ت', '€', '中', '😀', 'x\u0301', 'Z', '_', '.', '\t']
 
 
@@ -271,7 +429,7 @@ def run(ctx):
     probe_asan = vlib.build_probe('uc', includes=['uc'], asan=True)
     model = ctx.model('uc')
     res.rule = ('sweep = every Unicode scalar value U+0001..U+10FFFF through uc_len/uc_code/uc_end/uc_next/uc_slen/uc_cput; '
-                'str = one string through every helper at every offset; exhaustive strings up to length %d over a %d-character alphabet '
+                'str = one string through every helper at every offset; sub / cat / mem = uc_sub with any int offsets, uc_cat, uc_dup + uc_lastline + uc_trim + uc_iscomb (offsets at and beyond the length, cuts inside characters); exhaustive strings up to length %d over a %d-character alphabet '
                 '(1-4 byte, wide, combining, range ends), random valid strings, random malformed byte strings (model-vs-code only). '
                 'non-trivial = contains a multi-byte character; distinct = distinct request') % (3 if ctx.quick else 4, len(SMALL))
 
@@ -318,6 +476,8 @@ def run(ctx):
             except UnicodeDecodeError:
                 cs = None
             reqs.append(('str ' + vlib.hx(b), cs))
+    if not ctx.replay:
+        reqs += [(q, None) for q in mem_requests(ctx)]
     lines = [r for r, _ in reqs]
     sweep = [] if ctx.replay else ['sweep 1 1114111']
 
@@ -364,6 +524,16 @@ def run(ctx):
             res.nontriv('sweep:2byte'); res.nontriv('sweep:3byte'); res.nontriv('sweep:4byte')
         for (req, cs), line in zip(reqs, out_c[nsweep:]):
             res.evaluations += 1
+            if req.split(' ')[0] in ('sub', 'cat', 'mem'):
+                res.count('uc_' + req.split(' ')[0] + ' requests' if req[0] != 'm' else 'dup/lastline/trim/iscomb requests')
+                if any(x > 0x7f for x in unhx(req.split(' ')[1])):
+                    res.nontriv(req)
+                bad = oracle_mem(req, line)
+                if bad:
+                    res.violations.append({'what': bad, 'input': [req], 'observed': line})
+                    if len(res.violations) > 5:
+                        break
+                continue
             if cs is None:
                 res.count('malformed strings (model vs code only)')
                 continue
